@@ -15,6 +15,7 @@ part ops : ["wrap", kind]  kind in def|async|method|if|try|with|for|nested|while
            ["addarg", k, s] k-th single-line call gets one more argument (s = pos|kw|star|comma)
            ["quote", k, s]  k-th plain string literal: delimiters flipped / the other quote character put inside
            ["tuplerhs",k,s] k-th simple assignment gets a bare-tuple or lambda right-hand side
+           ["mlimport"]     first one-line `from X import a, b` -> parenthesised form with one name per line
            ["dupimport"]    second binding of the first imported module in the same block, and a use of it
 file ops : ["prepend", n, style]  style in comment|blank|docstring
            ["append", n]
@@ -436,6 +437,27 @@ def op_tuplerhs(code, k, style):
     return "".join(lines)
 
 
+def op_multiline_import(code):
+    """First one-line `from X import a, b[, ...]` (top level of the seed) -> parenthesised, one name per line."""
+    try:
+        tree = ast.parse(code)
+    except SyntaxError:
+        return code
+    for st_ in tree.body:
+        if isinstance(st_, ast.ImportFrom) and st_.lineno == st_.end_lineno and len(st_.names) >= 2 and st_.names[0].name != "*" and st_.module != "__future__":
+            lines = code.splitlines(keepends=True)
+            line = lines[st_.lineno - 1]
+            if "(" in line or "#" in line or ";" in line:
+                continue
+            indent = line[: len(line) - len(line.lstrip())]
+            names = ["%s as %s" % (a.name, a.asname) if a.asname else a.name for a in st_.names]
+            mod = "." * st_.level + (st_.module or "")
+            new = f"{indent}from {mod} import (\n" + "".join(f"{indent}    {n},\n" for n in names) + f"{indent})\n"
+            lines[st_.lineno - 1] = new
+            return "".join(lines)
+    return code
+
+
 def render_part(part, i):
     """-> (text, results_doc_shifted_within_part, applied_ops, dropped_ops)"""
     code = part["code"]
@@ -465,6 +487,10 @@ def render_part(part, i):
         elif op[0] in ("addarg", "quote", "tuplerhs"):
             fn = {"addarg": op_addarg, "quote": op_quote, "tuplerhs": op_tuplerhs}[op[0]]
             new, dl, dc = fn(code, op[1], op[2]), 0, 0
+            if doc is not None:
+                new = code
+        elif op[0] == "mlimport":
+            new, dl, dc = op_multiline_import(code), 0, 0
             if doc is not None:
                 new = code
         elif op[0] == "dupimport":
@@ -594,6 +620,7 @@ def part_ops():
             st.just(["comment"]),
             st.just(["alias"]),
             st.just(["dupimport"]),
+            st.just(["mlimport"]),
             st.tuples(st.just("sameline"), st.integers(0, 5)).map(list),
             st.tuples(st.just("nest"), st.integers(0, 5)).map(list),
             st.tuples(st.just("addarg"), st.integers(0, 5), st.sampled_from(["pos", "kw", "star", "comma"])).map(list),
